@@ -15,35 +15,14 @@ Definition memp (a b : string) (l : list (string * string)) : bool :=
 Definition prefix_is (p s : string) : bool := String.prefix p s.
 
 (* ---- C08: name heads ------------------------------------------------------------------------ *)
-(* name = head ++ "-" ++ token(operands).  Two classes with the same static head and the same number of
-   operands can only be told apart by their operands.  Every such pair is reviewed: the choice between the two
-   classes is a function of the operands themselves (e.g. frame vs series input), or the operand kinds are
-   disjoint (an expression vs a label).  Classes with a custom or operand-dependent head are handled by their own
-   _name implementation (prefix/label + token of all operands). *)
-Definition reviewed_pairs : list (string * string) := [
-  ("AddPrefix", "AddPrefixSeries");           (* chosen by the input's dimensionality *)
-  ("AddSuffix", "AddSuffixSeries");
-  ("AlignGetitem", "Filter"); ("AlignGetitem", "Projection"); ("Filter", "Projection");   (* Expr predicate / labels / position of an _Align pair *)
-  ("Loc", "LocBase"); ("Loc", "LocElement"); ("Loc", "LocList"); ("Loc", "LocSlice"); ("LocBase", "LocElement"); ("LocBase", "LocList");
-  ("LocBase", "LocSlice"); ("LocElement", "LocList"); ("LocElement", "LocSlice"); ("LocList", "LocSlice");   (* chosen by the indexer's type *)
-  ("DescribeNonNumericAggregate", "CaseWhen"); ("DescribeNonNumericAggregate", "_DeepCopy"); ("CaseWhen", "_DeepCopy");
-  ("TakeLast", "ColumnsSetter"); ("TakeLast", "RenameFrame"); ("TakeLast", "ScalarToSeries"); ("ColumnsSetter", "RenameFrame");
-  ("ColumnsSetter", "ScalarToSeries"); ("RenameFrame", "ScalarToSeries");
-  ("PropertyMap", "PropertyMapIndex"); ("PropertyMap", "ConcatIndexed"); ("PropertyMap", "ConcatUnindexed"); ("PropertyMap", "DescribeNumericAggregate");
-  ("PropertyMap", "MemoryUsagePerPartition"); ("PropertyMap", "RenameSeries"); ("PropertyMap", "SortValuesBlockwise"); ("PropertyMap", "CatBlockwise");
-  ("PropertyMapIndex", "ConcatIndexed"); ("PropertyMapIndex", "ConcatUnindexed"); ("PropertyMapIndex", "DescribeNumericAggregate");
-  ("PropertyMapIndex", "MemoryUsagePerPartition"); ("PropertyMapIndex", "RenameSeries"); ("PropertyMapIndex", "SortValuesBlockwise"); ("PropertyMapIndex", "CatBlockwise");
-  ("ConcatIndexed", "ConcatUnindexed"); ("ConcatIndexed", "DescribeNumericAggregate"); ("ConcatIndexed", "MemoryUsagePerPartition"); ("ConcatIndexed", "RenameSeries");
-  ("ConcatIndexed", "SortValuesBlockwise"); ("ConcatIndexed", "CatBlockwise"); ("ConcatUnindexed", "DescribeNumericAggregate"); ("ConcatUnindexed", "MemoryUsagePerPartition");
-  ("ConcatUnindexed", "RenameSeries"); ("ConcatUnindexed", "SortValuesBlockwise"); ("ConcatUnindexed", "CatBlockwise"); ("DescribeNumericAggregate", "MemoryUsagePerPartition");
-  ("DescribeNumericAggregate", "RenameSeries"); ("DescribeNumericAggregate", "SortValuesBlockwise"); ("DescribeNumericAggregate", "CatBlockwise");
-  ("MemoryUsagePerPartition", "RenameSeries"); ("MemoryUsagePerPartition", "SortValuesBlockwise"); ("MemoryUsagePerPartition", "CatBlockwise");
-  ("RenameSeries", "SortValuesBlockwise"); ("RenameSeries", "CatBlockwise"); ("SortValuesBlockwise", "CatBlockwise");
-  ("FunctionMap", "FunctionMapIndex"); ("FunctionMap", "SetIndexBlockwise"); ("FunctionMap", "SplitMap"); ("FunctionMapIndex", "SetIndexBlockwise");
-  ("FunctionMapIndex", "SplitMap"); ("SetIndexBlockwise", "SplitMap");
-  ("MethodOperator", "AssignPartitioningIndex");
-  ("GetDummies", "_SetIndexPost")
-].
+(* name = head ++ "-" ++ token(class?, operands).  Two classes with the same static head and the same number of
+   operands can only be told apart by their operands -- unless the class itself is tokenized (c_token_class, read off
+   the AST of the _name implementation each class inherits).  Classes with a custom or operand-dependent head are
+   handled by their own _name implementation (prefix/label + token of all operands). *)
+(* Since fix D100 every Blockwise name tokenizes its class together with the operands, so no pair needs a review any more;
+   before, 68 pairs were listed here with a reason each -- and the reason given for (ColumnsSetter, RenameFrame) was wrong:
+   `df.columns = mapping` and `df.rename(columns=mapping)` have equal operands (defect D100). *)
+Definition reviewed_pairs : list (string * string) := [].
 
 Definition static_head (c : class_info) : bool :=
   negb (prefix_is "custom:" (c_head c)) && negb (prefix_is "dynamic:" (c_head c)).
@@ -54,6 +33,7 @@ Definition pair_ok (c1 c2 : class_info) : bool :=
   || negb (static_head c1)
   || negb (Nat.eqb (c_arity c1) (c_arity c2))
   || c_variadic c1 || c_variadic c2
+  || (c_token_class c1 && c_token_class c2)      (* the class itself is part of the tokenized data of both names (fix D100) *)
   || memp (c_name c1) (c_name c2) reviewed_pairs.
 
 Definition heads_unambiguous_b : bool :=
